@@ -396,6 +396,10 @@ class ElfiModel(GraphicalModel):
         """
         kopy = super(ElfiModel, self).copy()
         kopy.name = "{}_copy_{}".format(self.name, random_name())
+        # Changing the node states or the observed data of the copy must not alter the original
+        for state in kopy.source_net.nodes.values():
+            state['attr_dict'] = state['attr_dict'].copy()
+        kopy.observed = self.observed.copy()
         return kopy
 
     def save(self, prefix=None):
